@@ -248,19 +248,24 @@ class C13(Prop):
         blines = [l + b"\n" for l in body.split(b"\n")[:-1]] if body.endswith(b"\n") else None
         if blines is None:
             return "body does not end with newline"
-        minus = [l[2:] for l in blines if l.startswith(b"- ")]
-        plus = [l[2:] for l in blines if l.startswith(b"+ ")]
-        if len(minus) != nd or len(plus) != ni:
-            return "header counts (-%d +%d) differ from lines shown (-%d +%d)" % (nd, ni, len(minus), len(plus))
-        ca, cb = collections.Counter(al), collections.Counter(bl)
-        cm, cp = collections.Counter(minus), collections.Counter(plus)
-        if cm - ca:
-            return "a '-' line is not a line of the stored text"
-        if cp - cb:
-            return "a '+' line is not a line of the received text"
-        if (ca - cm) != (cb - cp):
-            return "residual lines differ"
-        return None
+        # a `-` / `+` line is a body line that starts with that sign; whether the sign is followed by a blank (`- line`) or not
+        # (`-line`, the plain unified-diff form) is layout: the clauses must hold under one of the two readings
+        def judge(w):
+            minus = [l[w:] for l in blines if l.startswith(b"- "[:w])]
+            plus = [l[w:] for l in blines if l.startswith(b"+ "[:w])]
+            if len(minus) != nd or len(plus) != ni:
+                return "header counts (-%d +%d) differ from lines shown (-%d +%d)" % (nd, ni, len(minus), len(plus))
+            ca, cb = collections.Counter(al), collections.Counter(bl)
+            cm, cp = collections.Counter(minus), collections.Counter(plus)
+            if cm - ca:
+                return "a '-' line is not a line of the stored text"
+            if cp - cb:
+                return "a '+' line is not a line of the received text"
+            if (ca - cm) != (cb - cp):
+                return "residual lines differ"
+            return None
+        first = judge(2)
+        return first if (first is None or judge(1) is not None) else None
 
     @staticmethod
     def parse_groups(s):
